@@ -72,6 +72,10 @@ def gen_one(rng: random.Random, tier: str) -> dict:
                                                             "attr": rng.randrange(2)}}
                     if with_meta and rng.random() < 0.7:
                         bad["meta"] = {"lit": rng.choice(METAS)}
+                        if "shape" in bad["meta"]["lit"]:
+                            # same Python type as in the valid writes: a tuple and a list with equal items are
+                            # different values for the caller but identical JSON; that ambiguity is not exercised
+                            bad["meta"]["as_tuple"] = ["shape"]
                     out.append(bad)
                 out.append(write)
                 per_split[write["split"]] += 1
